@@ -21,6 +21,10 @@ if mode is None:
 def demo():
     if mode == 'gorun':
         return sh('go run .', cwd=src)
+    if mode.startswith('gorun:'):
+        return sh('go run .', cwd=os.path.join(src, mode.split(':', 1)[1]))
+    if mode == 'sh':
+        return sh(f'sh {src}/demo.sh')
     if mode == 'tree':
         return sh(f'sh {src}/demo.sh {wt}')
     rc, out = sh('go build -o /tmp/.seed_goawk .', cwd=wt)
@@ -64,10 +68,12 @@ res['demo'] = {'mode': mode, 'exit_with_mutant': rc_with, 'exit_without': rc_wit
 res['demo_ok'] = rc_with != 0 and rc_without == 0
 dst = os.path.join(V, 'seeded', sid)
 os.makedirs(dst, exist_ok=True)
-for f in os.listdir(src):
+extra = [os.path.join('demo', f) for f in os.listdir(os.path.join(src, 'demo'))] if os.path.isdir(os.path.join(src, 'demo')) else []
+os.makedirs(os.path.join(dst, 'demo'), exist_ok=True) if extra else None
+for f in os.listdir(src) + extra:
     p = os.path.join(src, f)
-    if os.path.isfile(p) and os.path.getsize(p) < 200_000 and not f.startswith('goawk') and f not in ('test.json', 'tests.json', 'pass.txt', 'test.pass', 'tests.pass', 'test.fail', 'tests.err', 'err.txt'):
-        shutil.copy(p, os.path.join(dst, f))
+    if os.path.isfile(p) and os.path.getsize(p) < 200_000 and not os.path.basename(f).startswith('goawk') and f not in ('test.json', 'tests.json', 'pass.txt', 'test.pass', 'tests.pass', 'test.fail', 'tests.err', 'err.txt'):
+        shutil.copy(p, os.path.join(dst, f))  # f may be demo/<file>
 meta_out = {'property': pid, 'title': meta.get('title'), 'what_it_breaks': meta.get('what_it_breaks'),
             'needs_to_manifest': meta.get('needs_to_manifest'), 'source': 'fresh sub-agent given only the property text and a scratch worktree',
             'author_meta': {k: meta.get(k) for k in ('demo_cmd', 'tests_before', 'tests_after')},
